@@ -34,6 +34,24 @@ func (x *Exec) callLibrary(s *State, fn *types.Func, recv *Term, args []*Term, c
 			s.assume(And(Cmp("<=", IntLit(0), v[1]), Cmp("<=", v[1], Field(args[0], 2))))
 		}
 		return v, true
+	case "strings.HasSuffix", "strings.HasPrefix":
+		// exact when the affix is a literal
+		if n, ok := litLen(args[1]); ok && n <= 16 {
+			libUsed[full] = "exact for a literal affix"
+			str := args[0]
+			cs := []*Term{Cmp(">=", Field(str, 2), IntLit(int64(n)))}
+			for i := 0; i < n; i++ {
+				var idx *Term
+				if full == "strings.HasSuffix" {
+					idx = Arith("+", Arith("-", Field(str, 2), IntLit(int64(n))), IntLit(int64(i)))
+				} else {
+					idx = IntLit(int64(i))
+				}
+				cs = append(cs, Eq(x.strByte(str, idx), x.strByte(args[1], IntLit(int64(i)))))
+			}
+			return []*Term{And(cs...)}, true
+		}
+		return nil, false
 	case "(image.Rectangle).Size", "(image.Rectangle).Dx", "(image.Rectangle).Dy":
 		libUsed[full] = "exact: Max - Min per axis"
 		r := recv
